@@ -30,6 +30,8 @@ func disguise(as ipld.Link, what delegation.Delegation) (delegation.Delegation, 
 	if err != nil {
 		return nil, err
 	}
+	// the same block list, as a model-evaluated case (gen_link.go)
+	recordLinkCase("disguised: bytes of "+what.Link().String()+" under "+as.String(), []ipld.Block{blk}, []ipld.Link{as, what.Link()})
 	return delegation.NewDelegation(blk, br)
 }
 
@@ -76,6 +78,7 @@ func disguiseScenarios(seed int64) (direct []map[string]any, runs int) {
 		if err != nil {
 			panic(err)
 		}
+		recordLinkCase("genuine: "+nonce, []ipld.Block{d.Root()}, []ipld.Link{d.Link()})
 		return d
 	}
 	access := func(label string, expectOK bool, can, with string, invoker *Prin, prf ...delegation.Proof) {
@@ -139,6 +142,7 @@ func disguiseScenarios(seed int64) (direct []map[string]any, runs int) {
 		access("a stranger's token carried under the link of the owner's delegation was accepted", false,
 			"debug/echo", owner.DID.String(), holder, delegation.FromDelegation(dis))
 	}
+	linkExtraScenarios(real, fake)
 	return direct, runs
 }
 
